@@ -627,6 +627,9 @@ class ReadSetReader:
         # Do not process symbolic alleles like <DEL>, <DUP>, etc.
         if any(alt.startswith("<") for alt in variant.get_alt_allele_list()):
             return None, None
+        # A missing genotype does not allow any allele: nothing can be detected
+        if restricted_variants is not None and restricted_variants.is_none():
+            return None, None
 
         left_cigar_iterator = ReadSetReader.split_cigar_left(cigartuples, i, consumed)
         right_cigar_iterator = ReadSetReader.split_cigar_right(cigartuples, i, consumed)
